@@ -711,6 +711,23 @@ def _compare(ctx, reqs, pending):
                 ctx.disagree('L2', case, impl['order'], [[s, p] for s, p, _ in m['frames']], 'frame (loop) order')
 
 
+def _exhaustive_sizes(ctx, reqs, pending):
+    """Finite sub-domain enumerated completely: BINARY, 1 x n frames for every n in 1..N and every plane count
+    1..P (all residues mod 8 on both sides of 8 pixels, every number of carried bits), both empty-frame policies."""
+    N, P = (12, 3) if ctx.tier == 'quick' else (33, 5)
+    for n in range(1, N + 1):
+        for planes in range(1, P + 1):
+            for omit in (False, True):
+                c = {'idx': n * 100 + planes * 2 + int(omit), 'stream': 'sizes', 'seed': ctx.seed, 'tier': ctx.tier,
+                     'source': 'series', 'planes': planes, 'rows': 1, 'cols': n, 'src_order': list(range(planes)),
+                     'type': 'BINARY', 'dtype': 'uint8', 'layout': '3d', 'segs': [1], 'mfv': 255, 'omit': omit,
+                     'empty': 'none', 'density': 0.5, 'ts': 'Explicit VR Little Endian', 'workers': 0, 'bad': None,
+                     'read_perm_seed': n * 7 + planes}
+                run_case(ctx, c, reqs, pending, paths=('memory', 'lazy'))
+    ctx.exhaustive.append(f'BINARY single-segment masks of 1 x n pixels, every n in 1..{N}, every plane count 1..{P}, '
+                          'omit_empty_frames in {False, True} (random content): PixelData bytes, frames and read-back')
+
+
 def run(ctx):
     import warnings
     warnings.simplefilter('ignore')
@@ -720,6 +737,8 @@ def run(ctx):
         c = json.load(open(f))
         run_case(ctx, c, reqs, pending)
     _helpers(ctx, reqs, pending)
+    if not ctx.search_mode:
+        _exhaustive_sizes(ctx, reqs, pending)
     for idx in range(ctx.n(250, 5000)):
         c = gen_case(ctx, idx)
         run_case(ctx, c, reqs, pending)
